@@ -243,4 +243,78 @@ theorem C07_reading_across_executions_fails :
     decide
 end ControlDependence
 
+/-! ### loop counters (differential review f1: the repair 8e9a383 had switched the `is quadratic` advice off inside loops)
+
+Since 8e9a383 the degree of `in[i]` needs the degree of `i`. A loop counter is `i.2 = phi(i.0, i.3)` with `i.3 = i.2 + 1`: each of the
+two needs the other, so the pessimistic propagation — which the early-stop property C20 rests on: nothing is claimed before it is
+derived — never gives them a degree, and `out[i] <-- in[i] * in[i]` was no longer reported as quadratic. The repair computes, before
+the first pass, the local variables of a template that are constant *by construction* (`constVars`: every expression assigned to
+any version of the variable is built from numbers, parameters and such variables, and so is every condition that chooses between
+the arguments of its phi expressions) and starts propagation with degree 0 for them. -/
+section LoopCounters
+
+/-- every version of such a variable has degree 0 in every reachable degree state of the template -/
+theorem C07_constant_variables (cfg : Cfg) (wf : WfD (programOf cfg) cfg.params) (v : VName) (hv : v ∈ constVars cfg) :
+    ∀ δ, ReachD (programOf cfg) cfg.params cfg.isFunction δ → δ v = 0 := by
+  intro δ hr
+  obtain ⟨hfn, C, hcl, hC⟩ := mem_constVars cfg v hv
+  exact (reachD_const cfg C hfn wf.params hcl δ hr).1 v hC
+
+/-- what makes a variable constant by construction: each assignment to one of its versions is a constant expression over the set,
+    and the conditions at the joins of its phi expressions are -/
+theorem C07_constant_variables_closed (cfg : Cfg) (v : VName) (hv : v ∈ constVars cfg) :
+    cfg.isFunction = false ∧ ∃ C, C.contains v.base = true ∧
+      ∀ a, a ∈ assignmentsOf cfg.blocks → C.contains a.1 = true →
+        constExpr cfg.params C a.2.2.2 = true ∧
+        (isPhiE a.2.2.2 = true → ∀ h, h ∈ a.2.1 → condSimple cfg.params C cfg.blocks h = true) := by
+  obtain ⟨hfn, C, hcl, hC⟩ := mem_constVars cfg v hv
+  refine ⟨hfn, C, hC, ?_⟩
+  intro a ha hCa
+  unfold constClosed at hcl
+  simp only [Bool.and_eq_true, List.all_eq_true] at hcl
+  have := hcl.1 a ha
+  simp only [hCa, Bool.not_true, Bool.false_or] at this
+  unfold assignmentOk at this
+  simp only [Bool.and_eq_true, Bool.not_eq_true', Bool.and_eq_false_iff] at this
+  refine ⟨this.1, ?_⟩
+  intro hphi h hh
+  rcases this.2 with h1 | h1
+  · rw [hphi] at h1; cases h1
+  · have := List.any_eq_false.mp h1 h hh
+    simpa using this
+
+private def lin : VName := ⟨"in", none, none⟩
+private def lout : VName := ⟨"out", none, none⟩
+private def ln : VName := ⟨"n", none, some 0⟩
+private def i0 : VName := ⟨"i", none, some 0⟩
+private def i2 : VName := ⟨"i", none, some 2⟩
+private def i3 : VName := ⟨"i", none, some 3⟩
+/-- `template T(n) { signal input in[n]; signal output out; for (var i = 0; i < n; i++) { out <-- in[i] * in[i]; } }`,
+    with the loop bound `bound` -/
+private def loopCfg (bound : Expr) : Cfg := { isFunction := false, params := [ln], blocks := [
+  { stmts := [.decl [lin] .signal [], .decl [lout] .signal [], .decl [i0, i2, i3] .local_ [],
+              .sub {} i0 (some .local_) "=" (.num {} 0)] },
+  { stmts := [.sub {} i2 (some .local_) "=" (.phi {} [i0, i3]),
+              .ite (.infix {} "lt" (.var {} i2) bound)], npreds := 2, conds := [1] },
+  { stmts := [.sub {} lout (some .signal) "<--"
+                (.infix {} "mul" (.acc {} lin (.cons (.idx (.var {} i2)) .nil)) (.acc {} lin (.cons (.idx (.var {} i2)) .nil))),
+              .sub {} i3 (some .local_) "=" (.infix {} "add" (.var {} i2) (.num {} 1))], npreds := 1 },
+  { stmts := [], npreds := 1 }] }
+
+private def rhsClaim (c : Cfg) : List (Option Ir.Range) :=
+  (stmtsOf (degLoop 30 (degInit c) c.blocks).1).filterMap
+    (fun s => match s with | .sub _ v _ _ rhe => if v = lout then some rhe.ann.deg else none | _ => none)
+
+/-- the counter of a loop bounded by a parameter is constant by construction, and the element-wise hint is known to be quadratic … -/
+example : constVars (loopCfg (.var {} ln)) = [i0, i2, i3] ∧ rhsClaim (loopCfg (.var {} ln)) = [some (2, 2)] := by decide
+
+/-- … while a loop bounded by a signal has no such counter (the condition that chooses between the arguments of the phi is not
+    constant), and nothing is claimed about the hint -/
+example : constVars (loopCfg (.var {} lin)) = [] ∧ rhsClaim (loopCfg (.var {} lin)) = [none] := by decide
+
+/-- the hypotheses of the path theorem hold for the loop -/
+example : wfDB (programOf (loopCfg (.var {} ln))) (loopCfg (.var {} ln)).params = true := by decide
+
+end LoopCounters
+
 end Circomspect.C07
